@@ -42,7 +42,7 @@ ANCHORS = [
     ('pjrpc/server/validators/jsonschema.py', 'JsonSchemaValidator.validate_method'),
     ('pjrpc/server/validators/pydantic.py', 'PydanticValidator.validate_method'),
 ]
-FLOORS = {'*': {'history:cases': 300, 'history:probes-after-failure': 50, 'history:probes-after-context-request': 50, 'history:step-that-raised-out-of-dispatch': 50,
+FLOORS = {'*': {'history:cases': 300, 'history:application-codec-classes-with-per-document-state': 100, 'history:probes-after-failure': 50, 'history:probes-after-context-request': 50, 'history:step-that-raised-out-of-dispatch': 50,
                 'leak:function': 6, 'leak:positional-context': 6, 'leak:view': 6, 'leak:base': 6, 'leak:jsonschema': 6,
                 'leak:pydantic': 6, 'leak:N=1000': 3, 'leak:hooks-that-raise': 6, 'leak:dispatch-raised-from-a-hook': 30, 'threads:runs': 4, 'threads:injected-yields': 1000,
                 'threads:distinct-lines': 20, 'threads:overlapping-dispatches': 100, 'threads:responses': 2000, 'threads:interpreter-state-samples': 2000, 'threads:cold-dispatcher-with-middlewares': 40, 'growth:runs': 8, 'cancel:runs': 12, 'two-loops:runs': 8, 'cancel:dispatch-cancelled': 100}}
@@ -87,9 +87,41 @@ def history_pool(rng):
     return pool
 
 
-def run_history(ctx, history, probe, is_async):
+class PerDocumentDecoder(json.JSONDecoder):
+    """an application decoder with per-document state on the instance (here simply: which document it is decoding), the way
+    `json.loads(text, cls=...)` invites: one decoder object per document"""
+
+    def __init__(self, **kw):
+        super().__init__(**kw)
+        self.document = None
+
+    def decode(self, s, *a, **kw):
+        if self.document is not None and self.document != s:
+            raise json.JSONDecodeError('this decoder object already belongs to another document', s, 0)
+        self.document = s
+        return super().decode(s, *a, **kw)
+
+
+class PerDocumentEncoder(pjrpc.server.JSONEncoder):
+    """the same on the way out: an encoder object that notes what it has encoded"""
+
+    def __init__(self, **kw):
+        super().__init__(**kw)
+        self.documents = 0
+
+    def encode(self, o):
+        self.documents += 1
+        if self.documents > 1:
+            raise TypeError('this encoder object already encoded another document')
+        return super().encode(o)
+
+
+def run_history(ctx, history, probe, is_async, codec=None):
     kind = 'async' if is_async else 'sync'
-    used = world.World(is_async, 3)
+    dkw = {'json_decoder': PerDocumentDecoder, 'json_encoder': PerDocumentEncoder} if codec else {}
+    if codec:
+        ctx.hit('history:application-codec-classes-with-per-document-state')
+    used = world.World(is_async, 3, **dkw)
     state0 = interpreter_state()
     token = 0
     any_fail, any_ctx = False, False
@@ -110,7 +142,7 @@ def run_history(ctx, history, probe, is_async):
             any_ctx = True
     ptext = json.dumps(PROBES[probe])
     a = serverside.observe(used, ptext, context=world.Context('PROBE'))
-    fresh = world.World(is_async, 3)
+    fresh = world.World(is_async, 3, **dkw)
     b = serverside.observe(fresh, ptext, context=world.Context('PROBE'))
     ctx.hit('history:cases')
     state1 = interpreter_state()
@@ -422,6 +454,10 @@ def run_growth(ctx, is_async, what):
         if what == 'failing-known-methods':
             return json.dumps({'jsonrpc': '2.0', 'id': i, 'method': ('boom', 'rpcerr', 'ok')[i % 3],
                                'params': (['ValueError', f'm{i}'], [4000 + i, f'msg{i}', {'d': i}], {'zz': f'u{i}'})[i % 3]})
+        if what == 'extension-members':
+            # members the protocol does not define (a trace id, an auth token), with values that differ per request
+            return json.dumps({'jsonrpc': '2.0', 'id': i, 'method': 'ok', 'params': [1], 'trace_id': f'Zq7-trace-{i}', 'auth': {'token': f'tok{i}'}}
+                              if i % 2 else [{'jsonrpc': '2.0', 'id': i, 'method': 'noargs', 'meta': [f'm{i}']}])
         if what == 'garbage':
             return ('{"jsonrpc": "2.0", "id": %d, "method": ' % i) + ('"x%d"' % i) * (i % 2) + ('[' * (i % 5))
         return json.dumps([{'jsonrpc': '2.0', 'id': f'a{i}', 'method': f'nm_{i}'}, {'jsonrpc': '2.0', 'method': 'ok', 'params': [f'p{i}']},
@@ -437,23 +473,29 @@ def run_growth(ctx, is_async, what):
         for i in range(300):
             one(i)
         gc.collect()
-        c1, l1 = len(gc.get_objects()), len(logging.Logger.manager.loggerDict)
+        c1, l1, b1 = len(gc.get_objects()), len(logging.Logger.manager.loggerDict), sys.getallocatedblocks()
         for i in range(300, 1300):
             one(i)
         gc.collect()
-        c2, l2 = len(gc.get_objects()), len(logging.Logger.manager.loggerDict)
+        c2, l2, b2 = len(gc.get_objects()), len(logging.Logger.manager.loggerDict), sys.getallocatedblocks()
     except Exception as e:
         ctx.violation(f'dispatch-raises:{type(e).__name__}', 'growth', (kind, what), exception=e)
         return
     ctx.hit('growth:runs')
     slope = (c2 - c1) / 1000.0
+    # containers of atoms (a tuple of a string, a static type and a number, say) are invisible to gc.get_objects(): the
+    # interpreter's count of allocated memory blocks sees them
+    bslope = (b2 - b1) / 1000.0
     wit = dict(dispatcher=kind, requests='1000 requests with pairwise distinct ' + what, gc_objects=[c1, c2], slope_per_request=slope,
-               loggers=[l1, l2])
+               loggers=[l1, l2], allocated_blocks=[b1, b2], blocks_per_request=bslope)
     if l2 - l1 > 5:
         ctx.violation('logger-table-grows-with-client-controlled-names', f'growth:{what}', (kind, what), **wit)
         return
     if slope > 0.05:
         ctx.violation(f'object-count-grows-with-requests:{what}', f'growth:{what}', (kind, what), **wit)
+        return
+    if bslope > 0.75:        # (clean tree: <= 0.2 for every request family; one retained string per request is >= 1)
+        ctx.violation(f'allocated-blocks-grow-with-requests:{what}', f'growth:{what}', (kind, what), **wit)
         return
     ctx.ok(f'growth:{what}:{kind}', (kind, what), sample=wit)
 
@@ -708,14 +750,14 @@ def gen(ctx):
     for h in crafted:
         for p in range(len(PROBES)):
             k += 1
-            yield 'history', dict(history=h, probe=p, is_async=bool(k % 2))
+            yield 'history', dict(history=h, probe=p, is_async=bool(k % 2), **({'codec': 'per-document'} if k % 7 == 0 else {}))
     for _ in range(60000 if deep else 5000):
         n = rng.randint(1, 12 if full else 6)
         h = [rng.choice(pool) for _ in range(n)]
         if k % 5 == 0:
             h.insert(rng.randrange(len(h) + 1), rng.choice(UNENCODABLE))
         k += 1
-        yield 'history', dict(history=h, probe=rng.randrange(len(PROBES)), is_async=bool(k % 2))
+        yield 'history', dict(history=h, probe=rng.randrange(len(PROBES)), is_async=bool(k % 2), **({'codec': 'per-document'} if k % 6 == 0 else {}))
     for style in ('function', 'positional-context', 'view'):
         for vname in ('base', 'jsonschema', 'pydantic'):
             for is_async in (False, True):
@@ -729,7 +771,7 @@ def gen(ctx):
     for rep in range(400 if deep else 60):
         yield 'threads', dict(n_threads=(2, 4, 8, 3)[rep % 4], per_thread=6, prob=(0.3, 0.1, 0.5)[rep % 3], middlewares=True)
     for is_async in (False, True):
-        for what in ('unknown-methods', 'failing-known-methods', 'garbage', 'batches'):
+        for what in ('unknown-methods', 'failing-known-methods', 'garbage', 'batches', 'extension-members'):
             yield 'growth', dict(is_async=is_async, what=what)
     for n in (1, 10, 200):
         for concurrent in (True, False):
